@@ -70,6 +70,9 @@ func VerifC15Bounded() {
 	prog := verifParse(src)
 	p := newInterp(prog)
 	c := []int{0, 1, checkContextOps / 2, checkContextOps - 2, checkContextOps - 1}[verifIntRange(0, 4)]
+	if verifBound(0, 1) == 1 {
+		c = verifIntRange(0, 26) * 37 // thorough: the counter anywhere in the interval, in steps of 37
+	}
 	verifWithContext(p, true, c)
 	err := p.execute(prog.Compiled.Begin)
 	verifReach("stopped")
